@@ -84,12 +84,11 @@ def standardisedCol (sqT : α → α) (tol : Tol α) (mag : α) (truth mat unsc 
     -- implementation's own unscaled column is constant only up to rounding noise (left by earlier
     -- steps of a history) it is not applicable
     if !(exactConst unsc) then none
-    -- sub-case with its own name: the float mean of the (exactly constant) column is not the
-    -- constant itself, so nanstd is a rounding residue instead of 0.0
-    else if scale != some 1 then
-      some (if loc != (present unsc).head? then "standardised:constant:inexact_mean" else "standardised:constant")
+    -- (defect D26, fixed by `<commit>`, failed here: the float mean of three times 0.1 is not 0.1, the computed
+    -- deviation was a rounding residue instead of 0.0 and the scale 1.4e-17)
+    else if scale != some 1 then some "standardised:constant"
     else if (present mat).all (fun x => decide (absR x ≤ tol.abs * mag)) then none
-    else some (if loc != (present unsc).head? then "standardised:constant:inexact_mean" else "standardised:constant")
+    else some "standardised:constant"
   else
     match scale with
     | none => some "standardised"
